@@ -2,7 +2,7 @@
 (* Judge for C13: header rules hold for whatever is produced or accepted, and *)
 (* encode and decode give the same verdict for every in-model header set,     *)
 (* whatever Go integer type spells a label.                                   *)
-EXTENDS GoValues, Json
+EXTENDS GoValues, Json, TraceKit
 Tr == ndJsonDeserialize("tr.ndjson")
 VARIABLE l
 
@@ -21,9 +21,9 @@ Fails(e) ==
   \cup (IF inm /\ e.enc # "ok" /\ e.dec = "ok" THEN {"encode-refuses-decode-accepts"} ELSE {})
   \cup (IF e.enc = "panic" \/ e.dec = "panic" THEN {"panic"} ELSE {})
 
-TInit == l = 1
+TInit == l = 1 /\ KitInit
 TNext == /\ l <= Len(Tr) /\ l' = l + 1
-         /\ LET f == Fails(Tr[l]) IN f = {} \/ PrintT(<<"REJECT", l, f>>)
+         /\ Note(l, Fails(Tr[l]))
 TSpec == TInit /\ [][TNext]_l
-Accepted == TLCGet("stats").diameter - 1 = Len(Tr)
+Accepted == KitDone(Len(Tr))
 =============================================================================
